@@ -104,6 +104,12 @@ def module_state():
 
 def purity_probe(fam, fn, inp):
     """runs the family's check of one input twice; reports a change of module-level state or a verdict that depends on history"""
+    for mname in ("py_ecc", "py_ecc.bls", "py_ecc.bls.ciphersuites", "py_ecc.bls.hash_to_curve", "py_ecc.bls.point_compression", "py_ecc.secp256k1",
+                  "py_ecc.bn128", "py_ecc.bls12_381", "py_ecc.optimized_bn128", "py_ecc.optimized_bls12_381", "py_ecc.fields"):
+        try:
+            importlib.import_module(mname)           # so that lazy imports during the call do not look like new state
+        except Exception:
+            pass
     s0 = module_state()
     try:
         bad1 = fam.check(fn, inp)
@@ -112,7 +118,9 @@ def purity_probe(fam, fn, inp):
     if bad1:
         return bad1
     s1 = module_state()
-    changed = [k for k in sorted(set(s0) | set(s1)) if s0.get(k) != s1.get(k)]
+    # names of modules imported for the first time during the call (lazy imports) are not state changes
+    mods0 = {k.rsplit(".", 1)[0] for k in s0}
+    changed = [k for k in sorted(set(s0) | set(s1)) if s0.get(k) != s1.get(k) and (k in s0 or k.rsplit(".", 1)[0] in mods0)]
     if changed:
         k = changed[0]
         return dict(why="module-level state of py_ecc changed during the call history (constants / class attributes must not be written)",
